@@ -294,7 +294,12 @@ def run_history(cfg, hist, expected_final, poison=None):
             seq.set_grads(params, cfg, ti, mask)
             if poison and poison[0] == ti:
                 with torch.no_grad():
-                    params[poison[1]].grad.view(-1)[0] = float(poison[2])
+                    if poison[2] == "huge_onehot":
+                        # finite one-hot gradient whose square overflows: the factor matrix stays exactly diagonal but holds Inf
+                        params[poison[1]].grad.zero_()
+                        params[poison[1]].grad.view(-1)[0] = 1e20
+                    else:
+                        params[poison[1]].grad.view(-1)[0] = float(poison[2])
             # expected factor matrices after this step's accumulation
             will_refresh = model.will_refresh(mask)
             t_next = model.t + (1 if any(mask) else 0)
@@ -402,7 +407,7 @@ def run_unit(unit):
                 for b in range(nb):
                     if not h[ti][b]:
                         continue
-                    for val in ("nan", "inf"):
+                    for val in ("nan", "inf", "huge_onehot"):
                         # the history is cut at the first refresh at or after the poisoned step
                         msgs, digests = run_history(cfg, base, None, poison=(ti, b, val))
                         res["stats"]["poison_runs"] += 1
